@@ -5,7 +5,7 @@ V = os.path.dirname(os.path.dirname(os.path.abspath(__file__)))
 sys.path.insert(0, os.path.join(V, "sa")); sys.path.insert(0, os.path.join(V, "sa", "rules"))
 import extract, runner, selftest
 diffs = sys.argv[1:] or sorted(glob.glob(os.path.join(V, "selftest", "*", "benign*.diff")))
-props = [f"C{i:02d}" for i in range(1, 19)]
+props = [f"C{i:02d}" for i in range(1, 20)]
 repo = os.path.join(selftest.SCRATCH + "-benign", "repo")
 os.makedirs(repo, exist_ok=True)
 for d in diffs:
@@ -21,6 +21,7 @@ for d in diffs:
     for p in props:
         mod = importlib.import_module(p.lower())
         ctx = runner.Ctx(p, "quick", facts)
+        ctx.repo = repo
         try:
             mod.run(ctx)
             _, un, _, _ = runner.judge(p, mod, ctx)
